@@ -17,8 +17,8 @@ func init() {
 			ruleInvokeShape(c, "C02.9b")
 			ruleWatcher(c, "C02.10")
 		},
-		Explain: "Static necessary conditions of exact status/metadata delivery: value flow of the handler's error into close_stream and of the received status/trailers into the client's terminal marker (with the nil/context-error mapping table); first-writer-wins marker with all publication dominated by the CAS success edge; publish-before-wake ordering in the client finishing function; header publication before its signal and once-guarded; headers no later than the first message; Join accumulation and whole-map/whole-slice converters; request metadata = outgoing metadata + every credentials pair, installed unconditionally on the server; no possibly-nil map written; metadata values reaching a proto3 string without validation (known finding F-4). All paths; no bound on inputs or schedules.",
-		Assume: []string{"status.FromError/FromProto/Proto/Err and metadata.Join/Copy behave as documented", "protobuf round trip preserves status details and metadata"},
+		Explain:    "Static necessary conditions of exact status/metadata delivery: value flow of the handler's error into close_stream and of the received status/trailers into the client's terminal marker (with the nil/context-error mapping table); first-writer-wins marker with all publication dominated by the CAS success edge; publish-before-wake ordering in the client finishing function; header publication before its signal and once-guarded; headers no later than the first message; Join accumulation and whole-map/whole-slice converters; request metadata = outgoing metadata + every credentials pair, installed unconditionally on the server; no possibly-nil map written; metadata values reaching a proto3 string without validation (known finding F-4). All paths; no bound on inputs or schedules.",
+		Assume:     []string{"status.FromError/FromProto/Proto/Err and metadata.Join/Copy behave as documented", "protobuf round trip preserves status details and metadata"},
 		NotDecided: []string{"equality of arbitrary status details/metadata after the proto round trip", "relative timing of Header() against frame delivery beyond the ordering facts"},
 	})
 	register("C07", &propDef{
@@ -38,8 +38,8 @@ func init() {
 			ruleLookAhead(c, "C07.11")
 			ruleCloseSafety(c, "C07.12")
 		},
-		Explain: "Static necessary conditions of per-RPC cancellation: a watcher on the stream's own context calls cancel-stream with that context's error on every successfully created stream; the code mapping table; the cancel frame is emitted only by the CAS winner, from its own goroutine, with the local receiver cancelled; the server's cancel case reaches the stream context cancel on every path, and that cancel precedes the write mutex (no loop/handler deadlock); single outcome by CAS; late frames for disposed ids are inert on both ends.",
-		Assume: []string{"context cancellation semantics", "atomic.Pointer CAS semantics"},
+		Explain:    "Static necessary conditions of per-RPC cancellation: a watcher on the stream's own context calls cancel-stream with that context's error on every successfully created stream; the code mapping table; the cancel frame is emitted only by the CAS winner, from its own goroutine, with the local receiver cancelled; the server's cancel case reaches the stream context cancel on every path, and that cancel precedes the write mutex (no loop/handler deadlock); single outcome by CAS; late frames for disposed ids are inert on both ends.",
+		Assume:     []string{"context cancellation semantics", "atomic.Pointer CAS semantics"},
 		NotDecided: []string{"'once the tunnel has delivered the notice' (transport progress)", "the outcome of races as observed by the caller beyond single assignment"},
 	})
 }
